@@ -419,6 +419,9 @@ struct Plant {
     region: Range<usize>,
     /// message of the same fault planted alone at top level (None: no expectation)
     expect_msg: Option<String>,
+    /// not a planted fault (corpus set, truncation): no expectation on which template, which
+    /// token, which notes
+    generic: bool,
     desc: serde_json::Value,
 }
 
@@ -571,7 +574,7 @@ fn plant(fault: &Fault, placement: &str, pre: (&str, &str), suf: (&str, &str), w
     let desc = json!({"fault": fault.label, "snippet": fault.snippet, "placement": placement, "prefix": pre.0,
         "suffix": suf.0, "wrap": wrap.0, "caller_prefix": cpre.0, "entry": entry, "fault_template": fault_tpl,
         "templates": t.iter().map(|(n, s)| json!([n, s])).collect::<Vec<_>>()});
-    Plant { templates: t, entry: entry.into(), fault_tpl: fault_tpl.into(), token, stmt, calls, region, expect_msg: None, desc }
+    Plant { templates: t, entry: entry.into(), fault_tpl: fault_tpl.into(), token, stmt, calls, region, expect_msg: None, generic: false, desc }
 }
 
 /// message of the error a plant gives (registration or render), if any
@@ -638,6 +641,8 @@ struct Run<'a> {
     seen: std::collections::BTreeMap<String, usize>,
     oracle_nontrivial: usize,
     to_coq: bool,
+    n_token_spans: usize,
+    n_other_spans: usize,
 }
 
 const KF_EOI: &str = "eoi:range-start-not-collapsed";
@@ -674,7 +679,7 @@ impl<'a> Run<'a> {
         self.meta.oracle_checks += 1;
         self.oracle_nontrivial += 1;
         // (a)
-        if info.filename != p.fault_tpl {
+        if !p.generic && info.filename != p.fault_tpl {
             self.fail(&format!("(a) error names template `{}`, the fault is in `{}`", info.filename, p.fault_tpl), None, p, Some(info));
         }
         let Some(src) = p.templates.iter().find(|(n, _)| *n == info.filename).map(|(_, s)| s.as_str()) else {
@@ -688,7 +693,7 @@ impl<'a> Run<'a> {
             self.fail(&format!("(b/c) span not consistent with the source: {why}"), kf, p, Some(info));
         }
         // (d)
-        if info.filename == p.fault_tpl && bad_span.is_none() {
+        if !p.generic && info.filename == p.fault_tpl && bad_span.is_none() {
             let (s, e) = (span.range.start, span.range.end);
             let touches = if s == e { p.token.start <= s && s <= p.token.end } else { s < p.token.end && p.token.start < e };
             let touches = touches || (p.token.start == p.token.end && s <= p.token.start && p.token.start <= e);
@@ -734,7 +739,7 @@ impl<'a> Run<'a> {
         // (f)
         let notes = parse_notes(&display);
         let called: Vec<_> = notes.iter().filter(|n| n.0 == "called from").collect();
-        let expect_notes = info.class == "render";
+        let expect_notes = info.class == "render" && !p.generic;
         let mut notes_ok = true;
         if expect_notes {
             if called.len() != p.calls.len() {
@@ -771,7 +776,7 @@ impl<'a> Run<'a> {
                 }
             }
         } else if !notes.is_empty() {
-            // syntax errors may carry parser notes the harness cannot see: compare the head only
+            // notes the harness cannot reconstruct (parser notes, corpus sets): compare the head only
             exact = false;
         }
         if !exact {
@@ -830,6 +835,48 @@ impl<'a> Run<'a> {
         }
     }
 
+    /// the same fault reached through render_block / render_component
+    fn other_entry_points(&mut self, tera: &Tera, p: &Plant, fault: &Fault, ctx: &Context) {
+        let placement = p.desc["placement"].as_str().unwrap_or("").to_string();
+        let (r, calls, via) = match placement.as_str() {
+            "ancestor-block" | "child-block-super" | "parent-via-super" | "grandparent-block" | "include-in-ancestor-block" => (
+                std::panic::catch_unwind(std::panic::AssertUnwindSafe(|| tera.render_block(&p.entry, "content", ctx))),
+                p.calls.clone(),
+                "render_block",
+            ),
+            "component" => (
+                std::panic::catch_unwind(std::panic::AssertUnwindSafe(|| tera.render_component("widget", ctx, None, false))),
+                vec![],
+                "render_component",
+            ),
+            "component-in-component" => (
+                std::panic::catch_unwind(std::panic::AssertUnwindSafe(|| tera.render_component("outer", ctx, Some("b"), true))),
+                p.calls[..1].to_vec(),
+                "render_component",
+            ),
+            _ => return,
+        };
+        let mut q = Plant {
+            templates: p.templates.clone(), entry: p.entry.clone(), fault_tpl: p.fault_tpl.clone(), token: p.token.clone(),
+            stmt: p.stmt.clone(), calls, region: p.region.clone(), expect_msg: p.expect_msg.clone(), generic: false, desc: p.desc.clone(),
+        };
+        q.desc["via"] = json!(via);
+        match r {
+            Err(_) => {
+                self.meta.oracle_checks += 1;
+                self.fail(&format!("panic during {via}"), None, &q, None);
+            }
+            Ok(Ok(_)) => self.count(&format!("no-error-via-{via}:{}", fault.label)),
+            Ok(Err(e)) => {
+                let info = inspect(&e);
+                self.count(&format!("{via}:{}", info.class));
+                if info.span.is_some() {
+                    self.check_report_error(&q, fault, &info);
+                }
+            }
+        }
+    }
+
     fn run_plant(&mut self, p: &Plant, fault: &Fault, ctx: &Context) {
         let mut tera = Tera::default();
         let tpls: Vec<(&str, &str)> = p.templates.iter().map(|(n, s)| (n.as_str(), s.as_str())).collect();
@@ -863,6 +910,7 @@ impl<'a> Run<'a> {
                     self.count(&format!("no-error:{}", fault.label));
                     return;
                 }
+                self.other_entry_points(&tera, p, fault, ctx);
                 let r = std::panic::catch_unwind(std::panic::AssertUnwindSafe(|| tera.render(&p.entry, ctx)));
                 match r {
                     Err(_) => {
@@ -890,6 +938,7 @@ impl<'a> Run<'a> {
         match lex(src, Delimiters::default(), false) {
             Ok(toks) => {
                 let spans: Vec<String> = toks.iter().map(|(_, sp)| gal_span(sp)).collect();
+                self.n_token_spans += toks.len();
                 for (_, sp) in &toks {
                     self.meta.oracle_checks += 1;
                     if let Some(why) = span_problem(src, sp) {
@@ -919,6 +968,24 @@ impl<'a> Run<'a> {
         let mut what = "none";
         if let Ok(ls) = chunk_listings("t", src, Delimiters::default()) {
             what = "instructions";
+            // instructions whose error paths `expect` a span must carry one (LoadPath/WritePath:
+            // one per path element)
+            for cl in &ls {
+                for (k, (ins, spans)) in cl.after.iter().enumerate().chain(cl.before.iter().enumerate()) {
+                    let need = match ins.op {
+                        "LoadPath" | "WritePath" => ins.strs.len(),
+                        "LoadName" | "LoadAttr" | "LoadAttrOpt" | "CallFunction" | "ApplyFilter" | "RunTest" | "RenderInlineComponent"
+                        | "RenderBodyComponent" | "BinarySubscript" | "BinarySubscriptOpt" | "Slice" | "SliceOpt" | "Not" | "Negative"
+                        | "In" | "BuildList" | "BuildListWithSpreads" | "Include" => 1,
+                        _ => 0,
+                    };
+                    self.meta.oracle_checks += 1;
+                    if spans.len() < need {
+                        self.meta.oracle_fail(&format!("instruction {k} ({}) of chunk {} carries {} spans, its error paths need {need}", ins.op, cl.id, spans.len()),
+                            None, json!({"source": src, "label": label}));
+                    }
+                }
+            }
             for cl in &ls {
                 for (_, spans) in cl.before.iter().chain(cl.after.iter()) {
                     for sp in spans {
@@ -946,6 +1013,7 @@ impl<'a> Run<'a> {
         if all.is_empty() {
             return;
         }
+        self.n_other_spans += all.len();
         for sp in &all {
             self.meta.oracle_checks += 1;
             if let Some(why) = span_problem(src, sp) {
@@ -955,6 +1023,86 @@ impl<'a> Run<'a> {
         let g = format!("{{| sc_src := {}; sc_spans := [{}] |}}", hexlit(src.as_bytes()), all.iter().map(gal_span).collect::<Vec<_>>().join("; "));
         let multi = src.contains('\n') && !src.is_ascii();
         self.spans.push(g, json!({"label": label, "source": src, "what": what, "spans": all.len()}), multi && all.len() >= 3, None, &[what]);
+    }
+
+    /// raw tokens under a second delimiter set (same bookkeeping, other markers)
+    fn push_custom_delims(&mut self, label: &str, src: &str) {
+        let alt = src.replace("{{", "<<").replace("}}", ">>").replace("{%", "<%").replace("%}", "%>").replace("{#", "<#").replace("#}", "#>");
+        let d = Delimiters {
+            block_start: "<%".into(), block_end: "%>".into(), variable_start: "<<".into(), variable_end: ">>".into(),
+            comment_start: "<#".into(), comment_end: "#>".into(),
+        };
+        let Ok(toks) = std::panic::catch_unwind(std::panic::AssertUnwindSafe(|| lex(&alt, d, false))) else {
+            self.meta.oracle_checks += 1;
+            self.meta.oracle_fail("panic in the lexer", None, json!({"source": alt, "label": label}));
+            return;
+        };
+        let Ok(toks) = toks else { return };
+        for (_, sp) in &toks {
+            self.meta.oracle_checks += 1;
+            if let Some(why) = span_problem(&alt, sp) {
+                self.meta.oracle_fail(&format!("token span (custom delimiters): {why}"), None, json!({"source": alt, "label": label, "span": json_span(sp)}));
+            }
+        }
+        let spans: Vec<String> = toks.iter().map(|(_, sp)| gal_span(sp)).collect();
+        let g = format!("{{| sc_src := {}; sc_spans := [{}] |}}", hexlit(alt.as_bytes()), spans.join("; "));
+        let multi = alt.contains('\n') && !alt.is_ascii();
+        self.tokens.push(g, json!({"label": label, "source": alt, "tokens": toks.len(), "delimiters": "<% %> << >> <# #>"}), multi && toks.len() >= 3, None, &["custom-delimiters"]);
+    }
+
+    /// a multi-template set of the snapshot corpus: whatever error registration or any render
+    /// gives is checked (no expectation about which one)
+    fn corpus_set(&mut self, label: &str, set: &[(String, String)], ctx: &Context) {
+        let mut tera = Tera::default();
+        let tpls: Vec<(&str, &str)> = set.iter().map(|(n, s)| (n.as_str(), s.as_str())).collect();
+        let reg = std::panic::catch_unwind(std::panic::AssertUnwindSafe(|| tera.add_raw_templates(tpls)));
+        let mut errs = Vec::new();
+        match reg {
+            Err(_) => {
+                self.meta.oracle_checks += 1;
+                self.meta.oracle_fail("panic during registration", None, json!({"label": label}));
+                return;
+            }
+            Ok(Err(e)) => errs.push(e),
+            Ok(Ok(())) => {
+                for (n, _) in set {
+                    match std::panic::catch_unwind(std::panic::AssertUnwindSafe(|| tera.render(n, ctx))) {
+                        Err(_) => {
+                            self.meta.oracle_checks += 1;
+                            self.meta.oracle_fail("panic during render", None, json!({"label": label, "template": n}));
+                        }
+                        Ok(Err(e)) => errs.push(e),
+                        Ok(Ok(_)) => {}
+                    }
+                }
+            }
+        }
+        for e in errs {
+            let info = inspect(&e);
+            if info.span.is_none() {
+                if let Err(m) = &info.display {
+                    self.meta.oracle_checks += 1;
+                    self.meta.oracle_fail(&format!("(e) Display panicked: {m}"), None, json!({"label": label}));
+                }
+                continue;
+            }
+            self.count(&format!("corpus-set:{}", info.class));
+            let fake = Fault { label: "corpus", snippet: "", token: ("", 0), class: "any" };
+            let p = Plant {
+                templates: set.to_vec(),
+                entry: String::new(),
+                fault_tpl: String::new(),
+                token: 0..0,
+                stmt: 0..0,
+                calls: vec![],
+                region: 0..0,
+                expect_msg: None,
+                generic: true,
+                desc: json!({"fault": "corpus", "label": label, "placement": "corpus",
+                    "templates": set.iter().map(|(n, s)| json!([n, s])).collect::<Vec<_>>()}),
+            };
+            self.check_report_error(&p, &fake, &info);
+        }
     }
 
     /// every prefix of `src`: whatever error registration gives is checked; "Unexpected end of
@@ -992,6 +1140,7 @@ impl<'a> Run<'a> {
                 calls: vec![],
                 region: 0..end,
                 expect_msg: None,
+                generic: false,
                 desc: json!({"fault": "truncated", "label": label, "source": pre, "cut": cut, "placement": "prefix"}),
             };
             self.check_report_error(&p, &fake, &info);
@@ -1224,7 +1373,7 @@ fn main() {
     }
 
     let mut run = Run { tokens: &mut tokens, spans: &mut spans, report: &mut report, eoi: &mut eoi, meta: &mut meta,
-        seen: Default::default(), oracle_nontrivial: 0, to_coq: true };
+        seen: Default::default(), oracle_nontrivial: 0, to_coq: true, n_token_spans: 0, n_other_spans: 0 };
 
     // ---- A. planted faults
     let rf = render_faults();
@@ -1273,7 +1422,7 @@ fn main() {
         }
     }
     // A3: random combinations (to Coq: a bounded number; oracle only: the rest)
-    let n_coq = if thorough { 22000 } else { 900 };
+    let n_coq = if thorough { 22000 } else { 500 };
     let n_oracle = if thorough { 150000 } else { 12000 };
     for k in 0..(n_coq + n_oracle) {
         run.to_coq = k < n_coq;
@@ -1312,7 +1461,7 @@ fn main() {
 
     // ---- C. token / instruction spans: corpus, decorated corpus, generated
     let corpus = corpus::corpus_templates();
-    let corpus_budget = if thorough { corpus.len() } else { 260 };
+    let corpus_budget = if thorough { corpus.len() } else { 160 };
     let step = (corpus.len() / corpus_budget.max(1)).max(1);
     for (i, (label, src)) in corpus.iter().enumerate() {
         if src.len() > 1500 {
@@ -1326,10 +1475,22 @@ fn main() {
             run.push_source_spans(&format!("{label}+decorated"), &d);
         }
     }
-    let n_lex = if thorough { 14000 } else { 700 };
+    let n_lex = if thorough { 14000 } else { 450 };
     for k in 0..n_lex {
         let s = lex_source(&mut rng);
         run.push_source_spans(&format!("lexgen#{k}"), &s);
+        if k % 5 == 0 {
+            run.push_custom_delims(&format!("lexgen#{k}+delims"), &s);
+        }
+    }
+    // ---- C2. the corpus as template sets and as single templates: every error they give
+    for (label, set) in corpus::corpus_sets() {
+        run.corpus_set(&label, &set, &ctx);
+    }
+    for (i, (label, src)) in corpus.iter().enumerate() {
+        if src.len() <= 1500 && (thorough || i % 2 == 0) {
+            run.corpus_set(label, &[("t.html".to_string(), src.clone())], &ctx);
+        }
     }
     let n_tpl = if thorough { 5000 } else { 250 };
     for k in 0..n_tpl {
@@ -1347,6 +1508,7 @@ fn main() {
 
     let seen = run.seen.clone();
     let oracle_nontrivial = run.oracle_nontrivial;
+    let (n_token_spans, n_other_spans) = (run.n_token_spans, run.n_other_spans);
     drop(run);
 
     // ---- D. binary operators: expand_span / combine_spans against the real span table
@@ -1356,6 +1518,8 @@ fn main() {
     meta.extra.insert("errors_by_stage_and_class".into(), json!(seen));
     meta.extra.insert("oracle_only_evaluations".into(), json!(oracle_only));
     meta.extra.insert("oracle_only_nontrivial".into(), json!(oracle_nontrivial));
+    meta.extra.insert("token_spans_checked".into(), json!(n_token_spans));
+    meta.extra.insert("instruction_and_expression_spans_checked".into(), json!(n_other_spans));
     meta.extra.insert("fault_kinds".into(), json!({"render": rf.len(), "syntax": sf.len(), "reference": ff.len()}));
     meta.extra.insert("placements".into(), json!(PLACEMENTS));
     meta.extra.insert("layouts".into(), json!({"prefixes": PREFIXES.iter().map(|p| p.0).collect::<Vec<_>>(),
